@@ -12,6 +12,13 @@ class P(vlib.Prop):
             "conc stage (EXPLORATION supporting the model; -race build): N goroutines (8 quick, 64 thorough) run rotations of a call pool over shared index objects and "
             "over private copies, after a sequential prefix, in a child process whose race reports are collected; each result is compared with the sequential fresh-cache oracle. "
             "indexcache stage: GetRepositoryIndexes over local synthetic repositories, each step compared with never-read copies of the directories. "
+            "indexhist stage: histories of events over 2-3 repository directories - an index file is REWRITTEN (its modification time set explicitly: later, unchanged or earlier) or a request "
+            "(GetRepositoryIndexes + resolution) runs over 1-3 repository lines under a pin name and a verification context (signatures ignored / keyring with the signing key / superset keyring / keyring without it), local or "
+            "remote (httptest server, ETag from the bytes, first fetch delayed so that goroutines complete out of order); repositories share a name-version so that the ORDER of the returned list decides the install list; "
+            "corpus first: one file under two entries with a rewrite between (pin / keyring), C08-F5 replays (unchanged and earlier time), delayed fetches in both orders, holes (missing local repository), remote rewrite, duplicates. "
+            "Per request the Name(), directory and packages of every returned index and the (name, version, directory) install list go to Coq, where the index-cache model (Model/CachesIndex.v) runs over the events; oracle = the same request on never-read copies. "
+            "history stage additions: the same index SET in two orders (same name-version in both: the first listed wins) in corpus and generator, k resolutions through ONE cache key each compared with a fresh process, "
+            "install_if triggers spread over two requests, and after every history the resolver trie is probed (every list used, its permutations and prefixes) against the model's rcache. "
             "A history is non-trivial when at least one call succeeds; distinct = distinct case terms.")
     stages = (
         dict(name="history", cmd="c08", args=lambda t, s: ["-stage", "history"]),
@@ -23,6 +30,7 @@ class P(vlib.Prop):
         "a call is NewPkgResolver(indexes) followed by GetPackagesWithDependencies(world, allArchs) on the returned clone, as in APK.ResolveWorld; re-using one *PkgResolver for two resolutions keeps its `selected` map by design and is outside the property",
         "the resolver core is a Section variable with the stated frame hypothesis (writes only selected / the disqualification map it was handed; its result is a function of what is reachable from its handles) until it is discharged for Model/Resolver.v",
         "index identity is object identity (Go interface values holding pointers), modelled as positions in the universe",
+        "index cache: the bytes of an index file and their parse are abstract (any parser), a file's modification time is what os.Stat reports; c08_index_cache_fresh assumes every rewrite moves it strictly forward (C08-F5 is what happens otherwise)",
         "slices.SortFunc on fewer than 12 elements is a stable insertion sort (Go 1.23 pdqsort), so equal-named indexes keep the map-iteration order of the concatenation in the disqualification key",
     )
     level_text = ("Theorems about an executable model of the cache layer over an explicit store (references for selected / nameMap / installIfMap and their slices / "
@@ -31,11 +39,17 @@ class P(vlib.Prop):
                   "(C08-F2), and - since fix c03e0c0 turned the install_if loop into a walk over the dependency list by index - c08_order_deterministic in full (one result, members and order, "
                   "for every universe, world and disqualification set; formerly refuted, findings C08-F1/F3) with c08_install_if_chain_complete (a package triggered by packages the loop itself "
                   "appended is appended too). The verified validator c08_validator_decides is run on the outcomes of the real "
-                  "code after histories, on fresh caches and in fresh processes; the model of the disqualification trie is compared with the entries the real trie holds before and after every call.")
+                  "code after histories, on fresh caches and in fresh processes; the model of the disqualification trie is compared with the entries the real trie holds before and after every call. "
+                  "Session 4: c08_clone_fresh - the clone function READ OFF PkgResolver.Clone's struct literal (clone_by_shape of the generated shape) and the trie keyed by the list as given: after every history a resolution through the cached, cloned resolver "
+                  "equals one through a fresh resolver (refuted for `selected: p.selected` and for a sorted trie key); c08_index_cache_fresh - the local index cache is transparent for every history of rewrites and requests under any entries provided rewrites move the "
+                  "modification time forward (refuted otherwise: finding C08-F5; refuted for per-path times); c08_index_list_schedule_independent - GetRepositoryIndexes returns repository order under every goroutine schedule; "
+                  "c08_install_if_request_complete / _versioned_complete - over a whole resolution every install_if package whose entries (literal names, or name=version under the side condition the code imposes) are met inside ONE request's "
+                  "dependency list is installed (refuted across requests, for the requested package itself, and for a shadowed versioned key).")
     level_note = ("trusted: Coq kernel, Go harness/printer, the reset hook (cross-checked against fresh processes); modelled not verified: the Go text of the cache layer and of the resolver core; "
                   "data races and interleavings are explored with the race detector, not proved; correspondence is differential testing, not proof")
     design_ref = "DESIGN.md 7 C08"
-    modelled_not_verified = ("resolverCache.Get / disqualifyCache.Get / PkgResolver.Clone / the memo tables are modelled by hand (Model/Caches.v); the resolver core is abstract "
+    modelled_not_verified = ("indexCache.get's local branch and GetRepositoryIndexes' collection are modelled by hand (Model/CachesIndex.v; shapes read by goextract); the remote branch (ETag, sync.Once) is only compared with 'returns the present contents'; "
+                             "resolverCache.Get / disqualifyCache.Get / the memo tables are modelled by hand (Model/Caches.v; PkgResolver.Clone is generated field by field); the resolver core is abstract "
                              "(frame hypothesis) unless Model/Resolver.v is linked; sync.Mutex / sync.Map and the Go memory model are exercised by the conc stage under the race detector only")
 
 PROP = P()
